@@ -1,13 +1,17 @@
 (* C03/Check.v — correspondence + property oracle for one harness case (executable only).
 
    Case layout:
-     T (Go type decoded into)  document-tree (typed atoms, with the extras the writer added)
+     T (Go type decoded into)  known-class?  document-tree (typed atoms, with the extras the writer added)
      value(T) written (ground truth)   n (kind value(kind))*  objects written, document order
      unmarshal_ok [value(T)]   scan_ok  n (kind value(kind))*
    codes: 1 = model <> implementation (whole-document decoder or streaming scanner)
           2 = the property fails on the observation: the decoded value is not the value
               written, or the scanner does not yield the written objects in document order
-          3 = the document is outside the domain of the theorems (C03/Spec.v doc_ok)
+          3 = generator sanity: the document is outside the independent writer's family
+              (C03/Spec.v doc_ok: OSM XML vocabulary in its places + unknown attributes + clean unknown
+              elements) although no known-finding class was assigned (or inside although one was).
+              doc_ok is NOT the domain of the theorems (that is: model writer output + noise, see
+              Properties/C03.v); it is the domain of the per-case oracle.
           0 = the case does not parse. *)
 From Coq Require Import ZArith List String Bool.
 From Verif Require Import Base.Wire Codec.Schema Codec.Value Codec.Xml Codec.Scan Codec.SpecNames
@@ -48,6 +52,7 @@ Definition objs_eqb (a b : list (string * value)) : bool :=
 
 Definition check_doc (T : string) : P (list Z) :=
   _u <- (if existsb (String.eqb T) top_types then ret tt else pfail) ;;
+  known <- pbool ;;
   doc <- pxml 64 ;;
   v <- pvalue gen_schema PFUEL (TNamed T) ;;
   written <- plist pobj ;;
@@ -62,7 +67,9 @@ Definition check_doc (T : string) : P (list Z) :=
   let j2 :=
     match v2 with Some x => value_eqb x v | None => false end
     && sok && objs_eqb sc written in
-  let j3 := doc_ok T doc in
+  (* the harness assigns a known-finding class when building the document exactly when the
+     document is outside the independent writer's family doc_ok *)
+  let j3 := Bool.eqb (doc_ok T doc) (negb known) in
   ret (code_if j1 1 ++ code_if j2 2 ++ code_if j3 3)%list.
 
 Definition check : P (list Z) :=
